@@ -140,8 +140,18 @@ class Gen:
     def cond(self, d, no_int_test=False):
         """a condition, or a value used as one (truth test)"""
         r = self.rng
-        if r.random() < 0.07:                                     # negated truth test: NumericMixin.negate / StringMixin.negate
+        if r.random() < 0.09:                                     # negated truth test: NumericMixin.negate / StringMixin.negate
             ty = r.choice(['int', 'str', 'bool', 'bool'])
+            if r.random() < 0.5:
+                # the `nullable` flag every value constructor hands on decides between `x = 0`, `x = 0 OR x IS NULL` and COALESCE
+                na, nn_ = r.choice(['n', 'm']), r.choice(['a', 'c'])
+                probes = {'int': [('neg', ('attr', na)), ('abs', ('attr', na)), ('neg', ('attr', nn_)), ('bin', r.choice(['+', '-', '*']), ('attr', na), ('attr', nn_)),
+                                  ('bin', '+', ('attr', nn_), ('int', 1)), ('len', ('attr', 'ns')), ('len', ('attr', 's')),
+                                  ('ite', ('attr', 'b'), ('attr', na), ('attr', nn_)), ('ite', ('attr', 'b'), ('attr', nn_), ('int', 0))],
+                          'str': [('bin', '+', ('attr', 'ns'), ('attr', 's')), ('bin', '+', ('attr', 's'), ('attr', 't')), ('ite', ('attr', 'b'), ('attr', 'ns'), ('attr', 's')),
+                                  ('ite', ('attr', 'nb'), ('attr', 's'), ('attr', 't'))],
+                          'bool': [('ite', ('attr', 'b'), ('attr', 'nb'), ('attr', 'b')), ('ite', ('cmp', '>', ('attr', 'a'), ('int', 0)), ('attr', 'b'), ('attr', 'b'))]}
+                return ('not', r.choice(probes[ty]))
             return ('not', self.val(ty, min(d - 1, 1), True))
         k = r.random()
         if d <= 0: k = k * 0.62
@@ -238,6 +248,25 @@ def bool_valued(c):
     if k in ('and', 'or'): return bool_valued(c[1]) and bool_valued(c[2])
     if k in ('cmp', 'in', 'like', 'not'): return True
     return is_value(c) and static_type(c) == 'bool' and c[0] != 'ite' and never_null(c)
+
+
+def flag_probes():
+    """every value constructor over nullable and non-nullable operands, negated and as a plain truth test: the `nullable` flag the
+    constructor hands on decides the NULL handling of `not` (x = 0 / OR IS NULL / COALESCE); run on every seed"""
+    out = []
+    for na in ('n',):
+        for nn_ in ('a',):
+            vals = [('neg', ('attr', na)), ('abs', ('attr', na)), ('neg', ('attr', nn_)), ('abs', ('attr', nn_)),
+                    ('bin', '+', ('attr', na), ('attr', nn_)), ('bin', '-', ('attr', nn_), ('attr', na)), ('bin', '*', ('attr', nn_), ('int', 2)),
+                    ('len', ('attr', 'ns')), ('len', ('attr', 's')), ('bin', '+', ('attr', 'ns'), ('attr', 's')), ('bin', '+', ('attr', 's'), ('attr', 't')),
+                    ('ite', ('attr', 'b'), ('attr', na), ('attr', nn_)), ('ite', ('attr', 'b'), ('attr', nn_), ('int', 0)),
+                    ('ite', ('attr', 'b'), ('attr', 'ns'), ('attr', 's')), ('ite', ('attr', 'nb'), ('attr', 's'), ('attr', 't')),
+                    ('ite', ('attr', 'b'), ('attr', 'nb'), ('attr', 'b')), ('ite', ('cmp', '>', ('attr', 'a'), ('int', 0)), ('attr', 'b'), ('attr', 'b')),
+                    ('attr', 'n'), ('attr', 'nb'), ('attr', 'ns'), ('attr', 'a'), ('attr', 'b'), ('attr', 's'), ('param', 'pi'), ('int', 0), ('str', '')]
+            for v in vals:
+                out.append(('not', v)); out.append(('and', v, ('cmp', '>=', ('attr', 'a'), ('int', 0))))
+                out.append(('or', ('not', v), ('cmp', '>', ('attr', 'c'), ('int', 100))))
+    return out
 
 
 def never_null(e):
